@@ -47,7 +47,7 @@ def monitors(req, impl):
     return None
 
 
-def run(seed, tier, replay=None):
+def run_p(seed, tier, replay=None):
     r, items, model = disp.run_disp(seed, tier)
     violations, detail = [], []
     nt = set()
@@ -71,5 +71,9 @@ def run(seed, tier, replay=None):
         "samples": samples, "traces": len(items), "dist": r.dist,
         "violations": violations, "detail_mismatches": detail, "broken": r.broken, "impl_failures": r.impl_failures,
     }
+
+def run(seed, tier, replay=None):
+    from props import mix, tim
+    return mix.merge(run_p(seed, tier, replay), tim.run_family("cancel", seed, tier, 5, 30))
 
 KNOWN_MATCHERS = {}
